@@ -86,6 +86,26 @@ Definition step_request (t : Z) (s : server) (ob : outbox) (c : Z) (req : frame)
       (s2, ob_push_all (ob_put ob c (ob_get ob c ++ own)) others)
   end.
 
+(** [BIG] (C05, the reply path under partial writes): a [size]-byte value with every byte
+    value, CR, LF and reply look-alikes at position-dependent places; SET, then [count] GETs
+    and a PING in one pipeline read by a client that starts reading late.  Bulk replies are
+    reported as (length, 32-bit position-sensitive checksum of the payload). *)
+Definition big_byte (seed i : Z) : Z := (i * 7 + i / 251 + seed) mod 256.
+Definition big_value (seed size : Z) : bytes :=
+  if size <=? 0 then [] else
+  snd (Pos.iter (fun st => let i := fst st - 1 in (i, big_byte seed i :: snd st)) (size, []) (Z.to_pos size)).
+Definition digest32 (v : bytes) : Z := fold_left (fun h b => Z.land (h * 33 + b) 4294967295) v 5381.
+Definition digest_frame (f : frame) : list tok :=
+  match f with
+  | FBulk v => [TI 3; TI (len v); TI (digest32 v)]
+  | _ => enc_frame f
+  end.
+Fixpoint big_gets (n : nat) (t : Z) (s : server) (ob : outbox) (c : Z) (req : frame) : server * outbox :=
+  match n with
+  | O => (s, ob)
+  | S n' => match step_request t s ob c req None with (s', ob') => big_gets n' t s' ob' c req end
+  end.
+
 Definition srv_op (so : server * outbox) (op : list tok) : list tok * (server * outbox) :=
   let (s, ob) := so in
   match op with
@@ -129,6 +149,25 @@ Definition srv_op (so : server * outbox) (op : list tok) : list tok * (server * 
                     end
                 end
             | None => ([TB (bs "BADFRAME")], so)
+            end
+        | _ => ([TB (bs "BADOP")], so)
+        end
+      else if beq name (bs "BIG") then
+        match rest with
+        | TI c :: TI t :: TB key :: TI seed :: TI size :: TI count :: _ =>
+            match zlookup c (s_conns s) with
+            | None => ([TB (bs "CLOSED")], so)
+            | Some _ =>
+                let v := big_value seed size in
+                match step_request t s ob c (FArray [FBulk (bs "SET"); FBulk key; FBulk v]) None with
+                | (s1, ob1) =>
+                    match big_gets (Z.to_nat count) t s1 ob1 c (FArray [FBulk (bs "GET"); FBulk key]) with
+                    | (s2, ob2) =>
+                        match step_request t s2 ob2 c (FArray [FBulk (bs "PING")]) None with
+                        | (s3, ob3) => (flat_map digest_frame (ob_get ob3 c), (s3, ob_put ob3 c []))
+                        end
+                    end
+                end
             end
         | _ => ([TB (bs "BADOP")], so)
         end
